@@ -92,7 +92,22 @@ Definition fit_C10_spec (A : mat2) : R := (m00 A + m11 A) / 2.
 Definition fit_C12a_spec (A : mat2) : R := (m00 A - m11 A) / 2.
 Definition fit_C12b_spec (A : mat2) : R := (m10 A + m01 A) / 2.
 
-Ltac close_eq := repeat first [ reflexivity | ring | f_equal ].
+(* equalities between two readings of the same formula: align the arguments of atan2 / sqrt by
+   ring/field reasoning, then close by field (so re-associations, (a + c) / 2 vs 0.5 * (c + a) and
+   renamed temporaries in the source do not matter) *)
+Ltac align2 :=
+  match goal with
+  | |- ?L = ?R =>
+    match L with context[atan2 ?y ?x] =>
+      match R with context[atan2 ?y' ?x'] =>
+        progress (try (replace y with y' by (first [ring | field]));
+                  try (replace x with x' by (first [ring | field])))
+      end end
+  | |- ?L = ?R =>
+    match L with context[sqrt ?y] =>
+      match R with context[sqrt ?y'] => progress (replace y with y' by (first [ring | field])) end end
+  end.
+Ltac close_eq := try align2; first [ reflexivity | ring | field ].
 
 Lemma fit_reads (U P : mat2) :
   fit_rotation_angle U P = fit_rotation_spec U /\
